@@ -155,6 +155,7 @@ func setStr(m map[string]bool) string {
 
 func runC18(c *Ctx) {
 	c18Chars(c)
+	c18Context(c)
 	s2k, p1 := stringMapLiteral(c, fmtPkg, "symbolToKeyword")
 	k2s, _ := stringMapLiteral(c, fmtPkg, "keywordToSymbol")
 	if len(s2k) < 8 || len(k2s) < 8 {
@@ -528,4 +529,85 @@ func c18Chars(c *Ctx) {
 			c.ob("C18-R5", fnKey(cs)+"#blank-line-decided-on-trimmed-text-"+itoa(n), bo.Pos(), trimmed, "a line is compared with the empty string before being trimmed: a line of spaces or tabs is not counted as blank but is written out empty, so the blank-line rules (no leading blank, at most one in a row) are applied by the second run of the formatter and fmt(fmt(x)) != fmt(x)")
 		})
 	}
+}
+
+
+// c18Context: R6 - words that are identifiers of the compact language are keywords of the expanded language only in context.
+func c18Context(c *Ctx) {
+	c.rule("C18-R6", "CTX: every expanded keyword (a value of symbolToKeyword) that the compact lexer lexes as a plain identifier is turned into its symbol token by ExpandedLexer.readIdentifier only under a test of the lexer's context (previous token / statement start), not for every occurrence of the word: `input.type`, `/cron/status`, an object key `type:` or a variable named `queue` are identifiers in the compact source, so an expanded text that contains them must still lex them as identifiers, or expand() of a valid program does not parse back to the same tree")
+	s2k, _ := stringMapLiteral(c, fmtPkg, "symbolToKeyword")
+	if len(s2k) == 0 {
+		return
+	}
+	expandedKW := map[string]bool{}
+	for _, k := range s2k {
+		expandedKW[k] = true
+	}
+	compactKW := caseTokenTable(c, parserPkg, c.decl(parserPkg, "Lexer.readIdentifier"), true)
+	ri := c.mustFn("C18-R6", parserPkg, "ExpandedLexer.readIdentifier")
+	if ri == nil {
+		return
+	}
+	// blocks that are entered on the true edge of `literal == "<kw>"` for a keyword the compact lexer does not know
+	var free []string
+	seen := map[string]bool{}
+	for _, b := range ri.Blocks {
+		iff := ifOf(b)
+		if iff == nil {
+			continue
+		}
+		bo, ok := iff.Cond.(*ssa.BinOp)
+		if !ok || bo.Op != token.EQL {
+			continue
+		}
+		kw, ok := constString(bo.Y)
+		if !ok {
+			kw, ok = constString(bo.X)
+		}
+		if !ok || !expandedKW[kw] || len(compactKW[kw]) > 0 || seen[kw] {
+			continue
+		}
+		seen[kw] = true
+		// is the keyword arm entered under any condition that looks at lexer context?
+		contextual := false
+		for x := b; x != nil; x = x.Idom() {
+			p := x.Idom()
+			if p == nil {
+				break
+			}
+			pi := ifOf(p)
+			if pi == nil {
+				continue
+			}
+			if pb, ok := pi.Cond.(*ssa.BinOp); ok {
+				if _, isStr := constString(pb.X); isStr {
+					continue
+				}
+				if _, isStr := constString(pb.Y); isStr {
+					continue
+				}
+			}
+			// a condition on the current character / position is scanning, not context
+			if derivesFrom(pi.Cond, func(v ssa.Value) bool {
+				_, f, ok := fieldOf(v)
+				return ok && (f == "ch" || f == "position" || f == "readPosition" || f == "input")
+			}) && !derivesFrom(pi.Cond, func(v ssa.Value) bool {
+				_, f, ok := fieldOf(v)
+				return ok && f != "ch" && f != "position" && f != "readPosition" && f != "input" && f != "line" && f != "column"
+			}) {
+				continue
+			}
+			contextual = true
+		}
+		if !contextual {
+			free = append(free, kw)
+		}
+	}
+	sort.Strings(free)
+	c.Sites["C18-R6#expanded-keywords-unknown-to-compact-lexer"] = len(seen)
+	if len(seen) < 5 {
+		c.undecided("C18-R6: only %d expanded keywords found in ExpandedLexer.readIdentifier", len(seen))
+		return
+	}
+	c.ob("C18-R6", fnKey(ri)+"#keywords-recognised-in-context", ri.Pos(), len(free) == 0, "the expanded lexer turns the words {"+strings.Join(free, ", ")+"} into symbol tokens wherever they occur, but in the compact language they are ordinary identifiers (field names, path segments, variables): expanding a program that uses one of them as a name gives text that does not parse, or parses to another tree, and compact() rewrites an object key `type:` into `::`")
 }
